@@ -485,6 +485,12 @@ func (h Hasher) U(x uint64) Hasher {
 	}
 	return h
 }
+func (h Hasher) B(x bool) Hasher {
+	if x {
+		return h.U(1)
+	}
+	return h.U(0)
+}
 func (h Hasher) I(x int) Hasher     { return h.U(uint64(x)) }
 func (h Hasher) F(x float64) Hasher { return h.U(math.Float64bits(x)) }
 func (h Hasher) S(s string) Hasher  { return h.U(HashStr(s)) }
